@@ -344,7 +344,7 @@ func (tr *Addition) Add(write func(w *Writer) error) error {
 		return ErrLockFailure
 	}
 
-	if err := tr.stack.checkAddition(tab.Name()); err != nil {
+	if err := tr.stack.checkAddition(tab.Name(), tr.newTables); err != nil {
 		return err
 	}
 
@@ -401,7 +401,10 @@ func (tr *Addition) Commit() error {
 	return tr.stack.reload(true)
 }
 
-func (s *Stack) checkAddition(tabname string) error {
+// checkAddition validates the refs in the table `tabname` against the
+// stack extended with `newTables`, the tables added earlier in the same
+// transaction.
+func (s *Stack) checkAddition(tabname string, newTables []string) error {
 	if s.cfg.SkipNameCheck {
 		return nil
 	}
@@ -432,7 +435,32 @@ func (s *Stack) checkAddition(tabname string) error {
 		recs = append(recs, rec)
 	}
 
-	return validateRefRecordAddition(s.Merged(), recs)
+	if len(newTables) == 0 {
+		return validateRefRecordAddition(s.Merged(), recs)
+	}
+
+	var tabs []Table
+	for _, t := range s.stack {
+		tabs = append(tabs, t)
+	}
+	for _, nm := range newTables {
+		bs, err := NewFileBlockSource(filepath.Join(s.reftableDir, nm))
+		if err != nil {
+			return err
+		}
+		nr, err := NewReader(bs, nm)
+		if err != nil {
+			return err
+		}
+		defer nr.Close()
+		tabs = append(tabs, nr)
+	}
+	m, err := NewMerged(tabs, s.cfg.HashID)
+	if err != nil {
+		return err
+	}
+	m.suppressDeletions = true
+	return validateRefRecordAddition(m, recs)
 }
 
 // non-deterministic random generator.
